@@ -257,22 +257,120 @@ theorem fragment_matches_order_free (t : Tol) (tol : Rat) (frags : List (Nat × 
 
 /-- `get_match_coverage` (after the repair) counts a fragment once: a further match of a fragment that already
 occurred among the matches (mode `all` pairs a fragment with every peak in its window) changes nothing -/
-theorem coverage_once (n : Nat) (pre post : List CovIn) (m : CovIn) (hm : m ∈ pre) :
+theorem coverage_once {κ : Type} [DecidableEq κ] (n : Nat) (pre post : List (CovIn κ)) (m : CovIn κ) (hm : m ∈ pre) :
     matchCoverage true n (pre ++ m :: post) = matchCoverage true n (pre ++ post) :=
   matchCoverageGo_dup n m post pre [] [] (Or.inl hm)
 
 /-- … and a fragment is counted: when all matches belong to different fragments, every match increments the
 residues `start..end-1` under its label exactly as the plain per-match count does -/
-theorem coverage_distinct_fragments (n : Nat) (ms : List CovIn) (hnd : (ms.map (·.key)).Nodup) :
+theorem coverage_distinct_fragments {κ : Type} [DecidableEq κ] (n : Nat) (ms : List (CovIn κ)) (hnd : (ms.map (·.key)).Nodup) :
     matchCoverage true n ms = matchCoverage false n ms :=
   matchCoverageGo_nodup n ms [] [] [] (fun _ _ => by simp) hnd
 
 /-- the defect that was repaired (KF-C17-coverage-per-peak): counting per match, a b-ion covering residues 0..2 that
 matched two peaks contributed 2 to every residue -/
 theorem coverage_per_match_counts_twice :
-    matchCoverage false 3 [⟨0, 1, "b", 0, 3⟩, ⟨0, 1, "b", 0, 3⟩] = .ok [((1, "b"), [2, 2, 2])] ∧
-    matchCoverage true 3 [⟨0, 1, "b", 0, 3⟩, ⟨0, 1, "b", 0, 3⟩] = .ok [((1, "b"), [1, 1, 1])] := by decide
+    matchCoverage false 3 [(⟨0, 1, "b", 0, 3⟩ : CovIn Nat), ⟨0, 1, "b", 0, 3⟩] = .ok [((1, "b"), [2, 2, 2])] ∧
+    matchCoverage true 3 [(⟨0, 1, "b", 0, 3⟩ : CovIn Nat), ⟨0, 1, "b", 0, 3⟩] = .ok [((1, "b"), [1, 1, 1])] := by decide
 
-example : (([⟨0, 1, "b", 0, 3⟩, ⟨1, 1, "y", 1, 3⟩] : List CovIn).map (·.key)).Nodup := by decide
+example : (([⟨0, 1, "b", 0, 3⟩, ⟨1, 1, "y", 1, 3⟩] : List (CovIn Nat)).map (·.key)).Nodup := by decide
 
+/-! ## 5. the same on the real records: `FragmentMatch(fragment : Fragment, mz, intensity)`
+
+`Model/ScoreFrag.lean` applies the functions above to `Fragment.Frag` (the `Fragment` dataclass of
+Model/Fragment.lean) through the projections score.py uses. -/
+section
+open Fragment (Frag Ion)
+
+
+/-- generic: after the repair, `cov[label][i]` is the number of distinct fragments (keys) among the matches whose
+label is `label` and whose span contains `i` -/
+theorem coverage_counts_distinct {κ : Type} [DecidableEq κ] (n : Nat) (ms : List (CovIn κ))
+    (hf : ∀ m ∈ ms, ∀ m' ∈ ms, m.key = m'.key → m = m') (cov' : List ((Nat × String) × List Nat))
+    (h : matchCoverage true n ms = .ok cov') (l : Nat × String) (i : Nat) (hi : i < n) :
+    rowVal cov' l i = (((ms.filter fun m => decide (hits l i m)).map (·.key)).toFinset).card := by
+  have := matchCoverageGo_count n l i hi ms [] [] cov' hf (by intro p hp; simp at hp) h
+  rw [this]
+  simp [rowVal, newKeys]
+
+/-- `get_match_coverage` on `FragmentMatch` records: for every label (`'+'*charge + ion_type`) and residue `i`,
+the entry is the number of distinct matched fragments — distinct `(label, start, end, isotope, loss, monoisotopic,
+internal)` — of that label whose span `[start, end)` contains `i`, however many peaks each of them matched -/
+theorem fragment_coverage_counts_fragments (ms : List FragMatch) (m0 : FragMatch) (rest : List FragMatch)
+    (hms : ms = m0 :: rest) (cov' : List ((Nat × String) × List Nat)) (h : getMatchCoverageF ms = .ok cov')
+    (l : Nat × String) (i : Nat) (hi : i < m0.fragment.parent.seq.length) :
+    rowVal cov' l i
+      = (((ms.filter fun m => decide (hits l i (covInOf m))).map fun m => covKey m.fragment).toFinset).card := by
+  subst hms
+  unfold getMatchCoverageF at h
+  simp only at h
+  have := coverage_counts_distinct _ _ (by
+    intro a ha b hb e
+    obtain ⟨x, _, rfl⟩ := List.mem_map.mp ha
+    obtain ⟨y, _, rfl⟩ := List.mem_map.mp hb
+    exact covInOf_inj x y e) cov' h l i hi
+  rw [this, List.filter_map, List.map_map]
+  rfl
+
+/-- `get_fragment_matches`, mode `all`, on `Fragment` records over ℚ: a `FragmentMatch(f, mz, intensity)` is produced
+iff `f` is one of the given fragments, `(mz, intensity)` one of the given peaks, and `mz` lies in the window of `f.mz`
+— regardless of the order of either input -/
+theorem fragment_matches_pairs (t : Tol) (tol : Rat) (frags : List Frag) (mzs ints : List Rat)
+    (hlo : ∀ a b, a ≤ b → lo t tol a ≤ lo t tol b) (ms : List FragMatch)
+    (h : getFragmentMatchesF .all t tol frags mzs ints = .ok ms) (m : FragMatch) :
+    m ∈ ms ↔ m.fragment ∈ frags ∧ (m.mz, m.intensity) ∈ mzs.zip ints ∧ inWindow t tol m.mz m.fragment.mz = true := by
+  unfold getFragmentMatchesF at h
+  cases h0 : getFragmentMatches .all t tol ((List.range frags.length).zip (frags.map (·.mz))) mzs ints with
+  | error e => rw [h0] at h; cases h
+  | ok ms0 =>
+    rw [h0] at h
+    simp only [Except.ok.injEq] at h
+    subst h
+    have key := fragment_matches_order_free t tol _ mzs ints hlo ms0 h0
+    rw [List.mem_filterMap]
+    constructor
+    · rintro ⟨m0, hm0, hm⟩
+      cases hf : frags[m0.frag]? with
+      | none => rw [hf] at hm; cases hm
+      | some f =>
+        rw [hf] at hm
+        simp only [Option.map_some, Option.some.injEq] at hm
+        subst hm
+        obtain ⟨f', hf', p, hp, hw, e1, e2, e3⟩ := (key m0.frag m0.mz m0.inten).mp ⟨m0, hm0, rfl, rfl, rfl⟩
+        obtain ⟨j, x⟩ := f'
+        have hlen : (List.range frags.length).length = (frags.map (·.mz)).length := by simp
+        have : (frags.map (·.mz))[j]? = some x := by
+          have := (mem_range_zip (frags.map (·.mz)) j x).mp (by simpa using hf')
+          exact this
+        simp only at e1 e2 e3 hw
+        subst e1
+        rw [List.getElem?_map, hf] at this
+        simp only [Option.map_some, Option.some.injEq] at this
+        refine ⟨List.mem_of_getElem? hf, ?_, ?_⟩
+        · rw [← e2, ← e3]; exact hp
+        · rw [← e2, this]; exact hw
+    · rintro ⟨hf, hp, hw⟩
+      obtain ⟨j, hj⟩ := List.getElem?_of_mem hf
+      have hz : (j, m.fragment.mz) ∈ (List.range frags.length).zip (frags.map (·.mz)) := by
+        have := (mem_range_zip (frags.map (·.mz)) j m.fragment.mz).mpr (by rw [List.getElem?_map, hj]; rfl)
+        simpa using this
+      obtain ⟨m0, hm0, e1, e2, e3⟩ := (key j m.mz m.intensity).mpr ⟨(j, m.fragment.mz), hz, (m.mz, m.intensity), hp, hw, rfl, rfl, rfl⟩
+      refine ⟨m0, hm0, ?_⟩
+      rw [e1, hj, e2, e3]
+      rfl
+
+/-- the matched-intensity share on `FragmentMatch` records: the statement of `intensity_fraction_eq` /
+`intensity_fraction_unit_interval` for the `(mz, intensity)` pairs the records carry -/
+theorem fragment_intensity_fraction (ps : List (Rat × Rat)) (ms : List FragMatch) (hnd : (ps.map (·.1)).Nodup)
+    (hsub : ∀ m ∈ ms, (m.mz, m.intensity) ∈ ps) (hnn : ∀ p ∈ ps, 0 ≤ p.2) :
+    (((ps.map (·.2)).sum ≠ 0 → getMatchedIntensityPercentageF ms (ps.map (·.2))
+        = ((matchedPeaks ps (ms.map fun m => (m.mz, m.intensity))).map (·.2)).sum / (ps.map (·.2)).sum)) ∧
+      0 ≤ getMatchedIntensityPercentageF ms (ps.map (·.2)) ∧ getMatchedIntensityPercentageF ms (ps.map (·.2)) ≤ 1 := by
+  have hsub' : ∀ x ∈ ms.map (fun m => (m.mz, m.intensity)), x ∈ ps := by
+    intro x hx
+    obtain ⟨m, hm, rfl⟩ := List.mem_map.mp hx
+    exact hsub m hm
+  exact ⟨fun htot => intensity_fraction_eq ps _ hnd hsub' htot, intensity_fraction_unit_interval ps _ hnd hsub' hnn⟩
+
+end
 end Score
